@@ -40,7 +40,10 @@ impl FieldAccess {
 
 impl ReturnType for FieldAccess {
     fn return_type(&self) -> crate::variable::Type {
-        self.var.return_type().field_type(&self.ident).unwrap()
+        self.var
+            .return_type()
+            .field_type(&self.ident)
+            .unwrap_or(crate::variable::Type::Never)
     }
 }
 
